@@ -148,6 +148,20 @@ def fault_sites(schema, ex):
     return sites
 
 
+def shared_plain_set(c, sites):
+    """2..4 positions (resolvers that raise, values / list items that are exception objects) failing with one and the same
+    ordinary exception object; [] when the request has fewer than two such positions"""
+    pool = {}
+    for s in sites:
+        if s[0] in ("raise", "item:return_exception"):
+            pool.setdefault(s[1], s)
+    keys = list(pool)
+    if len(keys) < 2:
+        return []
+    chosen = c.shuffle(keys)[: c.int(2, 4)]
+    return [("shared_plain", k, Fault("shared_plain"), pool[k][3]) for k in chosen]
+
+
 def pick_fault(c, sites):
     """one fault site; when a long list is present, often one of its far items"""
     far = [x for x in sites if x[1] and isinstance(x[1][-1], int) and x[1][-1] >= 128]
@@ -349,6 +363,10 @@ def case(c, stats):
             for key in [k for k in chosen if k and k[0] == "$outhook" and tuple(k[1:]) in chosen]:
                 del chosen[key]
             sets.append(list(chosen.values()))
+        for _ in range(2):
+            fs = shared_plain_set(c, sites)
+            if fs:
+                sets.append(fs)
     base = {k: v for k, v in spec.items()}
     for fs in sets:
         fspec = dict(base)
